@@ -272,6 +272,9 @@ class StdioClient:
                     if isinstance(message, str):
                         # Raw string message (already JSON)
                         json_str = message
+                        if "\n" in json_str or "\r" in json_str:
+                            # One message, one line: re-encode compactly
+                            json_str = json.dumps(json.loads(json_str))
                         msg_method = None
                         msg_id = None
                     elif isinstance(message, dict):
